@@ -6,11 +6,31 @@ front-end with instrumented callbacks that produce symbolic strings and log even
 derives the Lean `Attrs.Init.RunIn` (expected fields from the *specification*, layout facts from the
 real classes).  Values are plain strings (`t1`, `dflt.x`, `factory.x(self)`, `conv.x(t1,self)`) so the
 observed values can be compared verbatim with the model's.
+
+Harness-only dimensions the Lean model is independent of (all optional keys; absent = off):
+
+  classes[0]["exc_root"]   which builtin the chain hangs off when `exc_base` is set (EXC_ROOTS; default Exception)
+  cs["siblings"]           other subclasses of THIS class (class specs), created right after it -- i.e. before the
+                           next class of the chain, or, for the leaf, before any call -- tagged "SIB."
+  cs["deco"]               {"shared": bool, "warm": [style, ...]}: the class decorator OBJECT (attr.s(**kw) /
+                           define(**kw) / frozen(**kw)) is first applied to throw-away classes of the given body
+                           styles (WARM_STYLES) and, if shared, is one object per (api, options) and build
+  cs["field_transformer"]  None | "identity" | "copy"  (behaviour-preserving transformers)
+  f["v_deco"]              how many of the field's `validators` are added with `@x.validator` (the last ones)
+  f["v_and"]               the `validator=` argument is an `and_(...)` object instead of a callable / list
+  f["v_shared"]            group id: the `validator=` argument is ONE and_(...) object per (group, count) and build,
+                           shared by every field (of the decoy, sibling, warm-up and real classes) naming it
+  f["default"]=="decorator" the takes-self factory is installed with `@x.default`
+  f["ca_reuse"], f["v_extra"]  (sibling fields only) the sibling re-uses the attr.ib()/field() OBJECT of the real chain's
+                           field of that name after adding `v_extra` more `@x.validator` methods to it
+  call values              tokens of ODD_KINDS decode to objects with unusual __eq__/__ne__/__bool__/__hash__
 """
 from __future__ import annotations
 
+import copy
 import inspect
 import json
+import re
 import types
 
 import attr
@@ -28,13 +48,122 @@ UNSET = object()
 _TAG = [""]               # prefix captured by callbacks at creation time ("DECOY." while a decoy chain is built)
 
 
+STATS = {"sibling_errors": 0, "warm_errors": 0, "siblings": 0, "warm": 0}
+
+
+# ------------------------------------------------------------------------------------------ odd argument objects
+class Odd:
+    """an argument object the initializer must treat as opaque: it is stored / handed to callbacks, never compared,
+    truth-tested or hashed.  `token` is its protocol spelling (decode <-> _canon)."""
+    __slots__ = ("token",)
+
+    def __init__(self, token):
+        self.token = token
+
+    def __repr__(self):
+        return self.token
+
+    def __reduce__(self):
+        return (decode, (self.token,))
+
+
+class OddUse(RuntimeError):
+    """raised when an odd argument is compared / truth-tested / hashed although it must not be"""
+
+
+class EqAny(Odd):          # unittest.mock.ANY, wildcard matchers: equal to everything
+    __slots__ = ()
+
+    def __eq__(self, other):
+        return True
+
+    def __ne__(self, other):
+        return False
+
+    def __hash__(self):
+        return 0
+
+
+class NeAny(Odd):          # equal to nothing, not even itself (NaN-like)
+    __slots__ = ()
+
+    def __eq__(self, other):
+        return False
+
+    def __ne__(self, other):
+        return True
+
+    def __hash__(self):
+        return 1
+
+
+class CmpRaises(Odd):      # comparison is an error
+    __slots__ = ()
+
+    def __eq__(self, other):
+        raise OddUse("__eq__")
+
+    def __ne__(self, other):
+        raise OddUse("__ne__")
+
+    __hash__ = None
+
+
+class BoolRaises(Odd):     # numpy style: element-wise comparison, ambiguous truth value
+    __slots__ = ()
+
+    def __eq__(self, other):
+        return self
+
+    def __ne__(self, other):
+        return self
+
+    def __bool__(self):
+        raise ValueError("The truth value of an array is ambiguous")
+
+    def __len__(self):
+        raise ValueError("len() of unsized object")
+
+    __hash__ = None
+
+
+class Falsy(Odd):          # an empty container-like value
+    __slots__ = ()
+
+    def __bool__(self):
+        return False
+
+    def __len__(self):
+        return 0
+
+
+class Unhashable(Odd):
+    __slots__ = ()
+    __hash__ = None
+
+
+ODD_KINDS = {"eqany": EqAny, "neany": NeAny, "cmpraises": CmpRaises, "boolraises": BoolRaises, "falsy": Falsy,
+             "unhashable": Unhashable}
+_ODD_NAMES = sorted(ODD_KINDS)
+_ODD_RE = re.compile("^(" + "|".join(ODD_KINDS) + ")[0-9]*$")
+
+
 def decode(v):
-    """protocol value -> Python argument: the token "None" is the real None (canonicalised back by _canon)"""
-    return None if v == "None" else v
+    """protocol value -> Python argument: the token "None" is the real None, the tokens of ODD_KINDS are objects with
+    unusual special methods (both canonicalised back by _canon)"""
+    if v == "None":
+        return None
+    if isinstance(v, str):
+        m = _ODD_RE.match(v)
+        if m:
+            return ODD_KINDS[m.group(1)](v)
+    return v
 
 
 # ------------------------------------------------------------------------------------------ callbacks
 def _canon(v):
+    if isinstance(v, Odd):          # first: nothing below may compare / truth-test / hash such a value
+        return v.token
     if v is attr.NOTHING:
         return "NOTHING"
     if isinstance(v, str):
@@ -108,6 +237,36 @@ def mk_validator(name, idx):
     return validator
 
 
+def mk_shared_validator(idx):
+    """a validator that several fields (of several classes) use: it names the field it is called for"""
+    def validator(inst, a, value):
+        _event("validator", a.name, idx, [inst, a, value], "")
+    return validator
+
+
+class _Ctx:
+    """objects that live as long as one `build` and are shared by all classes it creates (decoy, warm-up, sibling and
+    real ones): and_(...) validator composites per (group, count), decorator objects per (api, options)"""
+
+    def __init__(self):
+        self.shared_v = {}
+        self.decos = {}
+        self.cas = {}          # field name -> the counting attribute a class of the real chain was last declared with
+
+    def shared_validator(self, group, m):
+        got = self.shared_v.get((group, m))
+        if got is None:
+            got = self.shared_v[(group, m)] = attr.validators.and_(*[mk_shared_validator(i) for i in range(m)])
+        return got
+
+
+_CTX = [None]
+
+
+def _ctx():
+    return _CTX[0] if _CTX[0] is not None else _Ctx()     # outside `build`: nothing to share with
+
+
 def mk_hook(name, idx=0):
     tag = _TAG[0]
 
@@ -152,13 +311,21 @@ def _cls_on_setattr_arg(kind):
 
 
 def _field_obj(f, next_gen):
+    ctx = _ctx()
+    if f.get("ca_reuse") and _TAG[0] == "SIB." and f["name"] in ctx.cas:
+        # a sibling class takes the very attr.ib()/field() OBJECT a class of the real chain was declared with and
+        # decorates it with further `@x.validator` methods before using it itself
+        ca = ctx.cas[f["name"]]
+        for i in range(f.get("v_extra") or 1):
+            ca.validator(mk_validator(f["name"], 100 + i))
+        return ca
     kw = {}
     d = f["default"]
     if d == "value":
         kw["default"] = f"{_TAG[0]}dflt.{f['name']}"
     elif d == "factory":
         kw["factory"] = mk_factory(f["name"], False)
-    elif d in ("factory_self", "decorator"):
+    elif d == "factory_self":
         kw["default"] = attr.Factory(mk_factory(f["name"], True), takes_self=True)
     if not f.get("init", True):
         kw["init"] = False
@@ -168,18 +335,32 @@ def _field_obj(f, next_gen):
         kw["alias"] = f["alias"]
     if f.get("converter"):
         kw["converter"] = mk_converter(f["name"], f["converter"], f.get("conv_type", False))
+    # the field's chain of `validators` callbacks: the first m through the `validator=` argument (a callable, a list,
+    # an and_() object, or an and_() object shared with other fields), the rest with `@x.validator`
     nv = f.get("validators", 0)
-    if nv == 1:
+    m = nv - min(max(f.get("v_deco") or 0, 0), nv)
+    if m >= 1 and f.get("v_shared"):
+        kw["validator"] = ctx.shared_validator(f["v_shared"], m)
+    elif m >= 1 and f.get("v_and"):
+        kw["validator"] = attr.validators.and_(*[mk_validator(f["name"], i) for i in range(m)])
+    elif m == 1:
         kw["validator"] = mk_validator(f["name"], 0)
-    elif nv >= 2:
-        kw["validator"] = [mk_validator(f["name"], i) for i in range(nv)]
+    elif m >= 2:
+        kw["validator"] = [mk_validator(f["name"], i) for i in range(m)]
     if f.get("on_setattr", "unset") != "unset":
         kw["on_setattr"] = _on_setattr_arg(f["on_setattr"], f["name"])
     if f.get("eq") is False:
         kw["eq"] = False
     if f.get("type") and not f.get("annotated"):
         kw["type"] = TYPES[f["type"]]
-    return (attrs.field if next_gen else attr.ib)(**kw)
+    ca = (attrs.field if next_gen else attr.ib)(**kw)
+    for i in range(m, nv):
+        ca.validator(mk_validator(f["name"], i))          # `@x.validator`
+    if d == "decorator":
+        ca.default(mk_factory(f["name"], True))            # `@x.default`
+    if _TAG[0] == "":
+        ctx.cas[f["name"]] = ca
+    return ca
 
 
 class ConvIn:  # the annotation used on converters' first parameter
@@ -198,15 +379,88 @@ def _is_bare(f):
                 and f.get("eq") is not False)
 
 
+_DECO_KEYS = ("slots", "frozen", "cache_hash", "kw_only", "auto_exc", "init", "collect_by_mro", "unsafe_hash", "eq",
+              "auto_detect", "weakref_slot", "getstate_setstate")
+
+
 def _deco_kwargs(cs):
     kw = {}
-    for k in ("slots", "frozen", "cache_hash", "kw_only", "auto_exc", "init", "collect_by_mro", "unsafe_hash", "eq",
-              "auto_detect", "weakref_slot", "getstate_setstate"):
+    for k in _DECO_KEYS:
         if cs.get(k) is not None:
             kw[k] = cs[k]
     if cs.get("cls_on_setattr", "unset") != "unset":
         kw["on_setattr"] = _cls_on_setattr_arg(cs["cls_on_setattr"])
+    if cs.get("field_transformer"):
+        kw["field_transformer"] = {"identity": _ft_identity, "copy": _ft_copy}[cs["field_transformer"]]
     return kw
+
+
+def _ft_identity(cls, fields):
+    return fields
+
+
+def _ft_copy(cls, fields):
+    return [a.evolve() for a in fields]
+
+
+WARM_STYLES = ("ann", "field", "annfield", "mixed")
+
+
+def _warm_class(style, names, next_gen, k):
+    """a throw-away class body: `ann` bare annotations with defaults only, `field` un-annotated field()s only,
+    `annfield` annotated field()s, `mixed` bare annotations plus an un-annotated field()"""
+    tag = _TAG[0]
+    mk = attrs.field if next_gen else attr.ib
+    ns, anns = {"__module__": "verif_synth"}, {}
+    for i, n in enumerate(names):
+        if style == "ann" or (style == "mixed" and i > 0):
+            anns[n] = int
+            ns[n] = f"{tag}dflt.{n}"
+        elif style == "annfield":
+            anns[n] = int
+            ns[n] = mk(default=f"{tag}dflt.{n}")
+        else:
+            ns[n] = mk(default=f"{tag}dflt.{n}")
+    if anns:
+        ns["__annotations__"] = anns
+    return type(f"W{k}", (object,), ns)
+
+
+def _decorator(cs, api, kw):
+    """the class decorator for `cs`: a new object per class, or -- cs["deco"] -- one that was applied to other
+    classes before (warm-up bodies of several declaration styles; the same object for every class of this build
+    with the same front-end and options)"""
+    factory = {"attr.s": attr.s, "define": attrs.define, "frozen": attrs.frozen}[api]
+    d = cs.get("deco")
+    if not d:
+        return factory(**kw)
+    ctx = _ctx()
+    key = None
+    if d.get("shared"):
+        key = json.dumps([api, {k: cs.get(k) for k in _DECO_KEYS + ("cls_on_setattr", "field_transformer")}], sort_keys=True)
+        got = ctx.decos.get(key)
+        if got is not None:
+            return got
+    deco = factory(**kw)
+    names = []
+    for f in cs.get("fields", []):
+        if len(names) < 2 and f["name"].lstrip("_") not in [n.lstrip("_") for n in names]:
+            names.append(f["name"])
+    names = names or ["x"]
+    old = _TAG[0]
+    _TAG[0] = old + "WARM."
+    try:
+        for k, style in enumerate(d.get("warm", [])):
+            STATS["warm"] += 1
+            try:
+                deco(_warm_class(style, names, api != "attr.s", k))
+            except Exception:  # noqa: BLE001 -- only the history matters
+                STATS["warm_errors"] += 1
+    finally:
+        _TAG[0] = old
+    if key is not None:
+        ctx.decos[key] = deco
+    return deco
 
 
 def build_class(cs, base, modname="verif_synth"):
@@ -234,8 +488,9 @@ def build_class(cs, base, modname="verif_synth"):
     if api in ("attr.s", "define", "frozen"):
         anns = {}
         for f in fields:
-            if _is_bare(f):
-                # a bare annotation (`x: int` / `x: int = value`), no field() object
+            if next_gen and _is_bare(f):
+                # a bare annotation (`x: int` / `x: int = value`), no field() object (define / frozen only: attr.s
+                # does not collect annotations unless asked to)
                 anns[f["name"]] = TYPES[f["type"]]
                 if f["default"] == "value":
                     ns[f["name"]] = f"{_TAG[0]}dflt.{f['name']}"
@@ -246,10 +501,9 @@ def build_class(cs, base, modname="verif_synth"):
         if anns:
             ns["__annotations__"] = anns
         cls = type(name, (base,), ns)
-        deco = {"attr.s": attr.s, "define": attrs.define, "frozen": attrs.frozen}[api]
         if api == "frozen":
             kw.pop("frozen", None)
-        return deco(**kw)(cls)
+        return _decorator(cs, api, kw)(cls)
     if api == "these":
         cls = type(name, (base,), ns)
         these = {f["name"]: _field_obj(f, False) for f in fields}
@@ -273,26 +527,55 @@ def build(hspec):
     if len(_CACHE) > 1500:
         _CACHE.clear()
         common.purge_linecache()
-    root = Exception if hspec["classes"][0].get("exc_base") else object
-    # A decoy chain with the same layout (same names, options, qualnames) but differently tagged callbacks
-    # and defaults is defined FIRST: anything attrs memoises per layout / per name / per qualname and then
-    # leaks into the real chain shows up as "DECOY." values or events in the observation.
-    _TAG[0] = "DECOY."
+    root = root_of(hspec)
+    _CTX[0] = _Ctx()
     try:
+        # A decoy chain with the same layout (same names, options, qualnames) but differently tagged callbacks
+        # and defaults is defined FIRST: anything attrs memoises per layout / per name / per qualname and then
+        # leaks into the real chain shows up as "DECOY." values or events in the observation.
+        _TAG[0] = "DECOY."
+        try:
+            base = root
+            for cs in hspec["classes"]:
+                base = build_class(cs, base)
+        except Exception:  # noqa: BLE001  -- the real build below reports definition errors
+            pass
+        finally:
+            _TAG[0] = ""
         base = root
+        out = []
         for cs in hspec["classes"]:
             base = build_class(cs, base)
-    except Exception:  # noqa: BLE001  -- the real build below reports definition errors
-        pass
+            out.append(base)
+            # other subclasses of the class just made, with other class options / front-ends / fields, BEFORE the
+            # next class of the chain is made (for the leaf: before it is used): whatever creating a subclass
+            # leaves behind in its ancestors (shared Attribute objects, caches, flags) reaches the class under test
+            for sib in cs.get("siblings", ()):
+                STATS["siblings"] += 1
+                _TAG[0] = "SIB."
+                try:
+                    build_class(sib, base)
+                except Exception:  # noqa: BLE001 -- only the history matters; the generator aims at valid ones
+                    STATS["sibling_errors"] += 1
+                finally:
+                    _TAG[0] = ""
     finally:
+        _CTX[0] = None
         _TAG[0] = ""
-    base = root
-    out = []
-    for cs in hspec["classes"]:
-        base = build_class(cs, base)
-        out.append(base)
     _CACHE[key] = out
     return out
+
+
+EXC_ROOTS = {"Exception": Exception, "BaseException": BaseException, "KeyboardInterrupt": KeyboardInterrupt,
+             "SystemExit": SystemExit, "GeneratorExit": GeneratorExit, "ValueError": ValueError}
+
+
+def root_of(hspec):
+    """the builtin the chain hangs off: object, or -- `exc_base` -- the exception class named by `exc_root`"""
+    c0 = hspec["classes"][0]
+    if not c0.get("exc_base"):
+        return object
+    return EXC_ROOTS.get(c0.get("exc_root") or "Exception", Exception)
 
 
 # ------------------------------------------------------------------------------------------ expectations
@@ -554,10 +837,109 @@ def gen_field(rng, name, frozen, rich=True):
          "type": rng.choice([None, None, "int"]),
          "conv_type": rng.random() < 0.5,
          }
+    if f["default"] == "factory_self" and rng.random() < 0.4:
+        f["default"] = "decorator"                      # the same field written with `@x.default`
+    if f["validators"]:
+        # how the chain of validators is written: argument (callable / list / and_ object, possibly one object shared
+        # with other fields) and `@x.validator` methods
+        f["v_deco"] = rng.choice([0, 0, 1, f["validators"]])
+        f["v_and"] = rng.random() < 0.3
+        f["v_shared"] = rng.choice([None, None, "g1", "g2"])
     return f
 
 
-def gen_hspec(rng, depth=None, frozen=None, allow_exc=True, allow_plain=True):
+def _order_ok(exp):
+    """no mandatory positional init parameter after a defaulted one"""
+    had_default = False
+    for e in exp:
+        if not e.get("init", True) or e.get("kw_only"):
+            continue
+        if e["default"] != "none":
+            had_default = True
+        elif had_default:
+            return False
+    return True
+
+
+def gen_sibling(rng, chain, like, k):
+    """a class specification for ANOTHER subclass of chain[-1] (not part of the chain under test): either a twin of
+    `like` (the class the chain continues with; the leaf itself below the leaf) with other class options, or a fresh
+    class; always with options that differ from the usual (class-level kw_only, another front-end, a transformer)"""
+
+    anc = [c for c in chain if c["kind"] == "attrs"]
+    fr_chain = leaf_frozen({"classes": chain})
+    hooked = any(f.get("on_setattr", "unset") not in ("unset", "noop") for c in anc for f in c.get("fields", []))
+    if like is not None and like["kind"] == "attrs" and rng.random() < 0.55:
+        cs = copy.deepcopy(like)
+        cs.pop("siblings", None)
+        cs.pop("exc_base", None)
+        cs.pop("exc_root", None)
+        cs["cache_hash"] = False
+        cs.pop("unsafe_hash", None)
+        cs.pop("init", None)
+        cs["kw_only"] = (not cs.get("kw_only")) if rng.random() < 0.8 else bool(cs.get("kw_only"))
+        if rng.random() < 0.4:
+            cs["slots"] = rng.choice([None, True, False])
+        if cs.get("api") in ("attr.s", "these", "make_class") and rng.random() < 0.25:
+            cs["collect_by_mro"] = not cs.get("collect_by_mro")
+        if rng.random() < 0.3:
+            for f in cs.get("fields", []):
+                if f.get("validators") and not f.get("bare"):
+                    f["ca_reuse"], f["v_extra"] = True, rng.choice([1, 1, 2])
+    else:
+        api = rng.choice(["attr.s", "attr.s", "define", "frozen", "these", "make_class"])
+        if api == "frozen" and hooked:
+            api = "define"
+        cs = {"kind": "attrs", "api": api, "slots": rng.choice([None, True, False]),
+              "frozen": (None if api == "frozen" else bool(fr_chain and rng.random() < 0.5)),
+              "kw_only": rng.random() < 0.5, "cache_hash": False, "pre": "none", "post": False,
+              "cls_on_setattr": "unset", "fields": []}
+        if api in ("attr.s", "these", "make_class") and rng.random() < 0.4:
+            cs["collect_by_mro"] = True
+        fr_here = fr_chain or api == "frozen"
+        for n in rng.sample(FIELD_NAMES, rng.choice([0, 1, 1, 2])):
+            f = gen_field(rng, n, fr_here)
+            if f["default"] == "none" and not cs["kw_only"]:
+                f["kw_only"] = True
+            cs["fields"].append(f)
+        # re-declare a validated field of the chain with the SAME attr.ib() object, decorated further
+        cand = [f for c in anc for f in c.get("fields", []) if f.get("validators") and not _is_bare(f)
+                and f["name"] not in [g["name"] for g in cs["fields"]]]
+        if cand and rng.random() < 0.3:
+            f = copy.deepcopy(rng.choice(cand))
+            f["ca_reuse"], f["v_extra"] = True, rng.choice([1, 1, 2])
+            if fr_here:
+                f["on_setattr"] = "unset"
+            cs["fields"].append(f)
+    cs["name"] = f"S{k}"
+    cs["field_transformer"] = rng.choice([None, None, "identity", "copy"])
+    if cs.get("api") in ("attr.s", "define", "frozen") and rng.random() < 0.4:
+        cs["deco"] = {"shared": True, "warm": []}
+    else:
+        cs.pop("deco", None)
+    # keep the definition valid: parameter order and clashing parameter names
+    try:
+        exp = expected_fields({"classes": list(chain) + [cs]})
+        if not _order_ok(exp):
+            cs["kw_only"] = True
+        own = {f["name"]: f for f in cs["fields"]}
+        seen = set()
+        for e in exp:
+            if not e.get("init", True):
+                continue
+            al = e.get("alias") or default_alias(e["name"])
+            if al in seen and e["name"] in own:
+                own[e["name"]]["init"] = False
+            seen.add(al)
+    except Exception:  # noqa: BLE001
+        pass
+    for f in cs["fields"]:
+        if f.get("bare") and (not f.get("init", True) or f.get("kw_only")):
+            f.pop("bare")
+    return cs
+
+
+def gen_hspec(rng, depth=None, frozen=None, allow_exc=True, allow_plain=True, history=0.3):
     # a targeted family: hooked attrs class <- plain class <- dict attrs class (the reset of an inherited
     # attrs-made __setattr__ must look through the plain class)
     force_mid = depth is None and frozen is None and allow_plain and rng.random() < 0.08
@@ -669,6 +1051,10 @@ def gen_hspec(rng, depth=None, frozen=None, allow_exc=True, allow_plain=True):
         kept.append(cs)
     classes = kept
     classes[0]["exc_base"] = exc_base
+    if exc_base:
+        # the exception ancestry need not pass through Exception
+        classes[0]["exc_root"] = rng.choice(["Exception", "Exception", "BaseException", "KeyboardInterrupt", "SystemExit",
+                                             "GeneratorExit", "ValueError"])
     h = {"classes": classes, "validators_enabled": True}
     # repair definition-time conflicts so that the class defines (C15 checks the rejections themselves)
     fr_seen = False
@@ -722,12 +1108,27 @@ def gen_hspec(rng, depth=None, frozen=None, allow_exc=True, allow_plain=True):
         for f in cs.get("fields", []):
             if f.get("bare") and (not f.get("init", True) or f.get("kw_only")):
                 f.pop("bare")
+    # definition HISTORY (the model is independent of it): decorator objects that were applied to other classes
+    # before, behaviour-preserving field transformers, and other subclasses of each class of the chain created
+    # before the chain continues
+    if history:
+        for i, cs in enumerate(classes):
+            if cs["kind"] == "attrs" and cs.get("api") in ("attr.s", "define", "frozen") and rng.random() < history:
+                cs["deco"] = {"shared": rng.random() < 0.5,
+                              "warm": [rng.choice(WARM_STYLES) for _ in range(rng.choice([0, 1, 1, 2]))]}
+            if cs["kind"] == "attrs" and rng.random() < history / 4:
+                cs["field_transformer"] = rng.choice(["identity", "copy"])
+        for i, cs in enumerate(classes):
+            if rng.random() < history:
+                like = classes[i + 1] if i + 1 < len(classes) else cs
+                cs["siblings"] = [gen_sibling(rng, classes[: i + 1], like, k) for k in range(rng.choice([1, 1, 2]))]
     return h
 
 
-def gen_call(rng, hspec, malformed=0.15):
+def gen_call(rng, hspec, malformed=0.15, odd=0.0):
     """a call shape for the leaf's initializer: which optional parameters are supplied, positionally or by
-    keyword; sometimes malformed"""
+    keyword; sometimes malformed.  `odd`: share of argument values that are objects with unusual special methods
+    (ODD_KINDS) -- the initializer must treat arguments as opaque"""
     fields = [f for f in expected_fields(hspec) if f.get("init", True)]
     pos_params = [f for f in fields if not f["kw_only"]]
     kw_params = [f for f in fields if f["kw_only"]]
@@ -740,6 +1141,8 @@ def gen_call(rng, hspec, malformed=0.15):
             return "None"        # the real None (see decode): "not supplied" must never be confused with it
         if r < 0.10:
             return ""            # a falsy value
+        if odd and rng.random() < odd:
+            return rng.choice(_ODD_NAMES) + str(tok[0])
         return f"t{tok[0]}"
 
     pos, kw = [], []
